@@ -14,7 +14,7 @@ SHARD = 300
 RULE = ("to_condensed/to_squared: every (n,i,j) for n <= 12 (quick) / 40 (thorough) scalar and array forms, every k "
         "for those n, plus row starts/ends and random k for n up to 10^7 where a mis-rounded float sqrt could change "
         "the truncation; pdist/cdist 1-D metrics on integer-valued inputs (float and int dtype) of length 0..7 with repeated values; "
-        "propagate_constraints on every (cannot-link, must-link) graph with <=2+<=2 edges on 4 vertices (quick) and "
+        "and on decimal / normal-distributed / tiny floats, where every pdist and cdist entry must equal the correctly rounded pair function bit for bit (driver, exact rationals); propagate_constraints on every (cannot-link, must-link) graph with <=2+<=2 edges on 4 vertices (quick) and "
         "<=3+<=3 (thorough) plus random graphs on 6 vertices; l2_normalize tolerance check on random matrices "
         "with zero rows, sparse rows and rows of magnitude 1e-100 .. 1e100; non-trivial = n >= 4 / length >= 3 / both constraint lists non-empty")
 TRUSTED = ["the float side of to_squared (np.sqrt, /2) is tied, not proved: the model is exact integer arithmetic"]
@@ -66,6 +66,11 @@ def generate(rng, tier):
                       "ml": [rp() for _ in range(rng.randrange(0, 6))]})
     for s in range(20):
         cases.append({"k": "l2", "seed": s})
+    # decimal and random (non-dyadic) float inputs: sums and halves are rounded, so "the stated function of each pair"
+    # is checked against the correctly rounded value computed with exact rationals, bit for bit
+    for m in ("equal", "minimum", "maximum", "average"):
+        for s in range(12 if tier == "thorough" else 4):
+            cases.append({"k": "pdistf", "m": m, "seed": s, "n": rng.choice([2, 3, 5, 9])})
     kinds = {}
     for c in cases:
         kinds[c["k"]] = kinds.get(c["k"], 0) + 1
@@ -135,6 +140,28 @@ def run(case):
             return {"obs": sorted([int(a), int(b)] for a, b in r)}
         except ValueError:
             return {"obs": None}
+    if k == "pdistf":
+        from fractions import Fraction
+        rs = np.random.RandomState(1000 + case["seed"])
+        n = case["n"]
+        kind = case["seed"] % 3
+        x = rs.randn(n) if kind == 0 else np.round(rs.uniform(-3, 3, n), 1) if kind == 1 else rs.uniform(0, 1, n) * 1e-3
+        x[rs.randint(n)] = x[rs.randint(n)]                         # a repeated value
+        y = np.round(rs.uniform(-3, 3, rs.randint(1, 5)), 2)
+        fn = {"equal": lambda a, b: 1.0 if a == b else 0.0, "minimum": min, "maximum": max,
+              "average": lambda a, b: float((Fraction(a) + Fraction(b)) / 2)}[case["m"]]
+        r = np.asarray(d.pdist(x, metric=case["m"]), dtype=float)
+        cd = np.asarray(d.cdist(x, x, metric=case["m"]), dtype=float)
+        cxy = np.asarray(d.cdist(x, y, metric=case["m"]), dtype=float)
+        ok = r.shape == (n * (n - 1) // 2,) and cd.shape == (n, n) and cxy.shape == (n, len(y))
+        for i in range(n):
+            for j in range(n):
+                ok = ok and float(cd[i, j]) == fn(float(x[i]), float(x[j]))
+                if i < j:
+                    ok = ok and float(r[d.to_condensed(n, i, j)]) == float(cd[i, j]) == float(r[d.to_condensed(n, j, i)])
+            for j in range(len(y)):
+                ok = ok and float(cxy[i, j]) == fn(float(x[i]), float(y[j]))
+        return {"ok": bool(ok)}
     if k == "l2":
         rng = np.random.RandomState(case["seed"])
         X = rng.randn(6, 4) * (10.0 ** rng.randint(-3, 4))
@@ -182,7 +209,7 @@ def encode(case, o):
         return f"KCdist {MET[case['m']]} {e.zs(case['xs'])} {e.zs(case['ys'])} {mat(o['obs'])}"
     if k == "prop":
         return f"KProp {zz(case['cl'])} {zz(case['ml'])} {e.opt(o['obs'], zz)}"
-    if k == "l2":
+    if k in ("l2", "pdistf"):
         return f"KL2 {e.b(o['ok'])}"
 
 
